@@ -54,7 +54,7 @@ PLAN = {
                 quick=[("asav", "F5", 3000), ("asav", "F6L", 1800), ("asav", "F6P", 600), ("asav", "F5U", 1260), ("asav", "F5N", None), ("asa", "F7", 6000), ("asa", "F2", 1500), ("asa", "F3", 1000), ("asa", "F4", 1000), ("asa", "F4N", None),
                        ("ios", "F7", 5000), ("ios", "F3", 1500), ("ios", "F4", 1500), ("ios", "F4M", None), ("ios", "F4N", None), ("ios", "V1L", 1500), ("ios", "V2", 600), ("panos", "P7", None), ("panos", "P8", 2500),
                        ("panos", "P2", 1500), ("nsx", "N1", 1500), ("nsx", "N2", None)],
-                thorough=[("asav", "F5", None), ("asav", "F6L", None), ("asav", "F6P", None), ("asav", "F5U", None), ("asav", "F5N", None), ("asa", "F7", None), ("asa", "F2", 30000), ("asa", "F3", 30000), ("asa", "F4", None), ("asa", "F4N", None),
+                thorough=[("asav", "F5", 150000), ("asav", "F6L", None), ("asav", "F6P", None), ("asav", "F5U", None), ("asav", "F5N", None), ("asa", "F7", 100000), ("asa", "F2", 30000), ("asa", "F3", 30000), ("asa", "F4", None), ("asa", "F4N", None),
                           ("ios", "F7", None), ("ios", "F3", None), ("ios", "F4", None), ("ios", "F4M", None), ("ios", "F4N", None), ("ios", "V1L", None), ("ios", "V2", None), ("panos", "P7", None), ("panos", "P8", None),
                           ("panos", "P2", None), ("panos", "P1", None), ("nsx", "N1", None), ("nsx", "N2", None)]),
     "C08": dict(mode="conv", tags={"C08"},
